@@ -768,7 +768,9 @@ impl Check for C09 {
         let max = if thorough { 64 } else { 32 };
         case.inputs = vec![gen_newline_rich_input(d, &model, max)];
         if d.chance(1) && d.chance(64) {
-            // more than 65 535 lines, or one line longer than 65 535 bytes
+            // more than 65 535 lines, or one line longer than 65 535 bytes (on a configuration
+            // that scans in linear time)
+            case.modes = crate::gen::benign_modes();
             let mut s = String::new();
             if d.bool() {
                 for i in 0..66_000 + d.below(2_000) {
